@@ -92,6 +92,8 @@ func TestC11(t *testing.T) {
 				typ := "c11.A"
 				if i%3 == 0 {
 					typ = "c11.B"
+				} else if i%5 == 0 {
+					typ = "" // an event whose type name is the empty string (legal, if unusual)
 				}
 				o, err := writers[(i+1)%len(writers)].Append(context.Background(), &ebu.Event{Type: typ, Data: json.RawMessage(fmt.Sprintf(`{"ID":%d}`, i)), Timestamp: time.Unix(int64(1700000000+i), 0).UTC()})
 				if err != nil {
@@ -258,6 +260,8 @@ func one(run *vk.Run, cfg string, st *stores.Opened, offs []ebu.Offset, batch, L
 			if upcasting && d.ID%2 == 1 {
 				wantType = "c11.B.v2"
 			}
+		} else if d.ID%5 == 0 {
+			wantType = ""
 		}
 		if e.Type != wantType && wrongType == "" {
 			wrongType = fmt.Sprintf("event %d was handed out as %q, want %q", d.ID, e.Type, wantType)
